@@ -196,9 +196,14 @@ pub fn evaluate_module(property: &str, rc: &RealCase, obs: &std::collections::Ha
             return;
         }
     };
-    if rf.lr1_tables.has_conflict() {
-        acc.inc("skipped: accepted although not LR(1) (reported by C04)");
-        return;
+    // Not LR(1) although accepted (C04 reports that): no reference driver and no unique tree; membership is
+    // still defined by Earley, and the error index by Earley viability when all nonterminals are productive.
+    let use_ref = !rf.lr1_tables.has_conflict();
+    if !use_ref {
+        acc.inc("modules of grammars accepted although not LR(1): judged by Earley alone");
+        if property == "C02" || (property == "C03" && !rf.all_productive) {
+            return;
+        }
     }
     let a = Analysis::new(&case.g);
     acc.inc("modules run");
@@ -216,9 +221,18 @@ pub fn evaluate_module(property: &str, rc: &RealCase, obs: &std::collections::Ha
     // the word, so every extension has the very same outcome) passes its observations on to its extensions.
     let mut stack: Vec<(Vec<u8>, Option<std::rc::Rc<[Option<Obs>; 3]>>)> = vec![(vec![], None)];
     while let Some((w, inherited)) = stack.pop() {
-        let res = drive(&case.g, &rf.lr1_tables, &w);
+        let res = if use_ref {
+            drive(&case.g, &rf.lr1_tables, &w)
+        } else {
+            match earley_word(&a, &w) {
+                Ok(true) => ParseResult::Accept(Tree::Leaf(usize::MAX)), // membership only; the tree is not compared (C02 returned above)
+                Ok(false) => ParseResult::Reject(None),
+                Err(i) => ParseResult::Reject(Some(i)),
+            }
+        };
         // reference self-checks
         match (&res, earley_word(&a, &w)) {
+            _ if !use_ref => {}
             (ParseResult::Accept(tree), Ok(true)) => {
                 if let Err(e) = validate_tree(&case.g, tree, &w) {
                     acc.self_check_errors.push(format!("reference self-check: the reference tree is not a derivation: {e}"));
@@ -287,7 +301,7 @@ pub fn evaluate_module(property: &str, rc: &RealCase, obs: &std::collections::Ha
             }
             let konst = mode == 1;
             let (want_class, want_desc): (&str, String) = match &res {
-                ParseResult::Accept(tree) => ("OK", format!("OK {}", render_tree(case, tree, konst))),
+                ParseResult::Accept(tree) => ("OK", if use_ref { format!("OK {}", render_tree(case, tree, konst)) } else { String::new() }),
                 ParseResult::Reject(Some(i)) => ("ERR", format!("ERR {}({})", case.rendered.names.terminals[w[*i] as usize], if konst { 0 } else { *i })),
                 ParseResult::Reject(None) => ("EOF", "EOF".to_string()),
                 ParseResult::Diverged => ("?", String::new()),
